@@ -13,6 +13,7 @@ Depths 2 and 3 are explored and reported in the evidence, not judged (the proper
 """
 from __future__ import annotations
 
+from harness.core import stable
 import json
 import types
 import warnings
@@ -40,7 +41,7 @@ def flatten_lazy(data):
 
 
 def errors_of(schema, src):
-    return [(str(e.reason)[:140]) for e in schema.iter_errors(src)]
+    return [(stable(e.reason)[:140]) for e in schema.iter_errors(src)]
 
 
 def snapshot(e, nsmap):
